@@ -18,6 +18,52 @@ CHECKS = {
             {"run": "^TestC01SingleBuild$", "n": {"quick": 12000, "thorough": 60000}},
         ],
     },
+    "C02": {
+        "level": "fault_enumeration",
+        "technique": "generated-schedule property testing with injected backend faults; provenance oracle over unique tokens and unique error objects; single-fault position enumeration",
+        "design_ref": "DESIGN.md section 6 C02",
+        "text": "Every value handed out by a harness builder is a unique token naming its key and producer, every failure a "
+                "unique error object; backend Read/Write calls can be replaced by unique injected errors at any point of the "
+                "generated schedule. Each Get result is checked for provenance (own key, finished build or stored value, or an "
+                "error produced for that key). In thorough mode every backend call index of sampled fault-free base schedules "
+                "is additionally enumerated as the single fault position.",
+        "note": "Schedules are sampled (call-out granularity). Generic value type is string (zero value detectable).",
+        "assumptions": ["interleaving granularity = frontend call-outs"],
+        "jobs": [
+            {"run": "^TestC02Provenance$", "n": {"quick": 8000, "thorough": 40000}},
+        ],
+    },
+    "C03": {
+        "level": "exploration",
+        "technique": "complete enumeration of the finite decision table (504 consistent cells) with property-based parameter generation inside each cell; explicit decision-function oracle",
+        "design_ref": "DESIGN.md section 6 C03",
+        "text": "The table entry-state x failure-cache x SyncUpdate x FailHard x MaxStaleness x FailedUpdateTTL x builder x "
+                "variant is enumerated completely (the run fails as a harness error if a cell is not visited); inside each "
+                "cell rapid draws the concrete parameters (ages on both sides of MaxStaleness including +/-1ns, TTLs, key, "
+                "SyncRead). The oracle is an independent decision function derived from the statement and README: result "
+                "(a set where the docs under-determine it), builder invocation count, whether Get returned before the "
+                "build ended (parking builder + synctest.Wait), backend value+expiry and failure cache at quiescence.",
+        "note": "Table exhaustive, parameters sampled. Where README bullets 5 and 7 both apply (stale value + cached failure) "
+                "the oracle accepts either documented outcome.",
+        "assumptions": ["fake clock; backend jitter disabled so expiries are exact"],
+        "jobs": [
+            {"run": "^TestC03DecisionTable$", "n": {"quick": 12, "thorough": 150}},
+        ],
+    },
+    "C04": {
+        "level": "exploration",
+        "technique": "generated-schedule property testing with faults and post-return caller actions; deterministic quiescence detection in a synctest bubble; key-lock accessor plus black-box follow-up Get",
+        "design_ref": "DESIGN.md section 6 C04",
+        "text": "Liveness is turned into a safety check at scheduler quiescence: when nothing is parked every builder has "
+                "returned, so a Get that has not returned can never return. Then no key lock may remain (accessor) and, "
+                "black-box, every key must be buildable again after Delete + clearing the failure cache. Caller behaviours "
+                "after return (buffer overwrite with another live key, context cancel) are scheduled steps.",
+        "note": "A livelock that never reaches a call-out would trip the watchdog (exit 2), not produce a verdict.",
+        "assumptions": ["interleaving granularity = frontend call-outs"],
+        "jobs": [
+            {"run": "^TestC04Completion$", "n": {"quick": 8000, "thorough": 40000}},
+        ],
+    },
     "C07": {
         "level": "exploration",
         "technique": "model-based stateful property testing (rapid) against a reference map on a fake clock",
